@@ -99,6 +99,10 @@ class Reader:
 def apply(*args, none=(), fail=None, delays=None, log=None, tag="r"):
     """the mapped function: first argument is the content (an id or a list
     of ids) or a FileInfo"""
+    lead = []
+    while args and isinstance(args[0], str) and args[0].startswith("tag:"):
+        lead.append(args[0])       # positional arguments given via args=
+        args = args[1:]
     first = args[0]
     if hasattr(first, "attr"):
         key = int(first.attr["id"])
@@ -115,7 +119,7 @@ def apply(*args, none=(), fail=None, delays=None, log=None, tag="r"):
     if key in none:
         return None
     extra = [int(a.attr["id"]) if hasattr(a, "attr") else a for a in args[1:]]
-    return [tag, first if not hasattr(first, "attr") else key] + extra
+    return [tag, first if not hasattr(first, "attr") else key] + extra + lead
 
 
 def file_specs(n, gaps):
@@ -158,7 +162,8 @@ def reference(case, ids, bundles):
         elif key in none:
             out.append(("ok", None, unit))
         else:
-            out.append(("ok", ["r"] + args, unit))
+            out.append(("ok", ["r"] + args + list(case.get("args") or []),
+                        unit))
     return out
 
 
@@ -172,8 +177,15 @@ def run_case(case, ctx, pool_kind):
         root = box.mkdir("tree")
         log = os.path.join(box.root, "access.log")
         specs = file_specs(n, case["gaps"])
-        pop = G.make_population(root, TEMPLATE, specs,
-                                content=lambda f: f.attrs["id"].encode())
+        template = TEMPLATE
+        content = lambda f: f.attrs["id"].encode()
+        if case.get("compress"):
+            import gzip
+            template = dict(TEMPLATE, file=TEMPLATE["file"][:-1]
+                            + [["lit", ".dat.gz"]])
+            content = lambda f: gzip.compress(f.attrs["id"].encode())
+            ctx.label("compressed-files")
+        pop = G.make_population(root, template, specs, content=content)
         order = sorted(pop.files, key=lambda f: (f.t0, f.t1))
         ids = [int(f.attrs["id"]) for f in order]
         by_id = {int(f.attrs["id"]): f for f in order}
@@ -234,6 +246,10 @@ def run_case(case, ctx, pool_kind):
         else:
             worker_type = "thread"
         call = dict(kwargs)
+        if method in ("map", "imap") and case.get("args"):
+            call["args"] = list(case["args"]) \
+                if case.get("args_as") == "list" else tuple(case["args"])
+            ctx.label("args-" + case.get("args_as", "tuple"))
         if method in ("map", "imap"):
             call.update(func=apply, kwargs=func_kwargs,
                         on_content=case["on_content"] or bundles is not None,
@@ -328,14 +344,47 @@ def run_case(case, ctx, pool_kind):
                 ctx.check(val == value, "results/wrong-value-or-order",
                           lambda: "expected %r got %r for file(s) %r; %s" % (
                               value, val, unit, where()))
-        # every file read once / at most once
-        reads = {}
+        log_text = ""
         if os.path.exists(log):
             with open(log) as fh:
-                for line in fh:
-                    kind, fid = line.split()
-                    if kind == "read":
-                        reads[int(fid)] = reads.get(int(fid), 0) + 1
+                log_text = fh.read()
+        # second call on the same FileSet object, after the cause of the read
+        # failures has gone: every selected file must now be processed, and
+        # the FileInfo objects must still name the real files
+        if case.get("second_call") and pool_kind != "process" \
+                and error is None and bundles is None:
+            ctx.label("second-call-on-same-object")
+            reader.fail = set()
+            sched2 = simpool.Schedule(list(reversed(case["perm"])))
+            if pool_kind == "sim":
+                FS.ThreadPoolExecutor = simpool.make_pool_class(sched2)
+                sched2.start_watchdog()
+            try:
+                with warnings.catch_warnings(record=True):
+                    warnings.simplefilter("always")
+                    again = fileset.map(
+                        apply, on_content=True, return_info=True,
+                        worker_type="thread", max_workers=workers,
+                        **({"files": list(kwargs["files"])}
+                           if isinstance(kwargs.get("files"), (list, tuple))
+                           else {}))
+            finally:
+                FS.ThreadPoolExecutor = saved
+                sched2.stop()
+            if "files" not in kwargs or isinstance(kwargs["files"],
+                                                   (list, tuple)):
+                got2 = [(info.path if hasattr(info, "path") else info,
+                         normalise(val)) for info, val in again]
+                exp2 = [(by_id[i].path, ["r", i]) for i in ids]
+                ctx.check(got2 == exp2, "second-call/wrong-results", lambda: (
+                    "expected %r got %r; %s" % (exp2, got2, where())))
+
+        # every file read once / at most once
+        reads = {}
+        for line in log_text.splitlines():
+            kind, fid = line.split()
+            if kind == "read":
+                reads[int(fid)] = reads.get(int(fid), 0) + 1
         if on_content:
             if error is None:
                 # members of a bundle whose reading failed may stay unread
@@ -690,6 +739,12 @@ def sampled_cases(draw, real=False):
         if not readable or select == "bundles":
             case["fail_read"] = []
     case["workers_via_default"] = draw(st.integers(0, 3)) == 0
+    if draw(st.integers(0, 2)) == 0:
+        case["args"] = draw(st.lists(st.sampled_from(["tag:a", "tag:b"]),
+                                     min_size=1, max_size=2))
+        case["args_as"] = draw(st.sampled_from(["list", "tuple"]))
+    case["compress"] = draw(st.integers(0, 3)) == 0
+    case["second_call"] = draw(st.booleans())
     if real:
         case["pool"] = draw(st.sampled_from(["thread", "thread", "process"]))
         case["delays"] = draw(st.lists(st.sampled_from([0, 2, 5, 10, 20]),
